@@ -1,10 +1,12 @@
 import Isotp.Process
+import Isotp.Proofs.Req
 /-
   Helper definitions and lemmas for C04 (flow control obeyed, sender terminates) and
   C08 (STmin honoured): a phase decomposition of `processTx` (`_process_tx`), facts about
   `handleFc`, `transmitCf`, the timers, the transmit-side invariants (`TxWf`, `Coupled`, `SepInv`),
   the block-size monitor, and stability of invariants under the loops of `process()`.
   Everything lives in namespace `Isotp.Fc` (function-call notation `txView s`, `allowedNow s`).
+  `Isotp.Proofs.Req` (namespace `Isotp.C12`) is imported for `makeTxMsg_isSome` / `txPrefix_le`.
 -/
 namespace Isotp.Fc
 open Isotp State
@@ -1873,6 +1875,700 @@ theorem SepInv_loopStable (t : Nat) : LoopStable (fun s => SepInv s t) where
   rx := fun s m h => SepInv_processRx s m t h
   tx := fun s h => SepInv_processTx s t h
   rl := fun _ _ h => h
+
+/-! ### Frame lemmas for the mailbox and the exception flag -/
+
+theorem stopSending_exc (s : State) (ok : Bool) : (s.stopSending ok).exc = s.exc := by
+  unfold stopSending
+  cases h : s.active <;> simp [emit]
+
+theorem handleFc_exc (s : State) (fc : FcFrame) : (s.handleFc fc).exc = s.exc := by
+  unfold handleFc
+  grind [stopSending, State.error, emit, startRxFcTimer]
+
+theorem afterFc_exc (s : State) : (afterFc s).1.exc = s.exc := by
+  unfold afterFc
+  cases hfc : s.lastFc with
+  | none => rfl
+  | some fc =>
+    simp only []
+    split
+    · exact stopSending_exc ({ s with lastFc := none } : State) false
+    · exact handleFc_exc ({ s with lastFc := none } : State) fc
+
+theorem afterTimeout_exc (s : State) : (afterTimeout s).exc = s.exc := by
+  unfold afterTimeout
+  split
+  · exact stopSending_exc (s.error .FlowControlTimeout) false
+  · rfl
+
+theorem afterDepleted_exc (s : State) : (afterDepleted s).exc = s.exc :=
+  ite_pred (P := fun x => x.exc = s.exc) (stopSending_exc _ _) rfl
+
+theorem afterDepleted_lastFc (s : State) : (afterDepleted s).lastFc = s.lastFc :=
+  ite_pred (P := fun x => x.lastFc = s.lastFc) (stopSending_misc _ _).1 rfl
+
+theorem startTx_lastFc (s : State) (r : Req) (allowed : Nat) :
+    (s.startTx r allowed).1.lastFc = s.lastFc := by
+  unfold startTx
+  grind (splits := 30) [consumeActive_fst, stopSending, State.error, emit, State.raise, startRxFcTimer, Timer.stop]
+
+theorem readTxQueue_lastFc (s : State) (allowed : Nat) (q : List Req) :
+    (s.readTxQueue allowed q).1.lastFc = s.lastFc := by
+  induction q generalizing s with
+  | nil => rfl
+  | cons r rest ih =>
+    unfold readTxQueue
+    simp only []
+    split
+    · rw [ih]; rfl
+    · rw [startTx_lastFc]
+
+theorem transmitCf_lastFc (s : State) (allowed : Nat) : (s.transmitCf allowed).1.lastFc = s.lastFc := by
+  unfold transmitCf
+  grind (splits := 30) [consumeActive_fst, stopSending, State.error, emit, State.raise, startRxFcTimer,
+    Timer.startAt, Timer.stop]
+
+theorem fsm_lastFc (s : State) (a : Nat) : (fsm s a).1.lastFc = s.lastFc := by
+  unfold fsm
+  split
+  · exact readTxQueue_lastFc _ _ _
+  · grind [startRxFcTimer, stopSending, Timer.stop, emit]
+  · grind [startRxFcTimer, stopSending, Timer.stop, emit]
+  · rfl
+  · exact transmitCf_lastFc _ _
+
+theorem finish_lastFc_exc (r : State × Option CanMsg × Bool) :
+    (finish r).1.lastFc = r.1.lastFc ∧ (finish r).1.exc = r.1.exc := by
+  unfold finish
+  split
+  · exact ⟨rfl, rfl⟩
+  · split <;> exact ⟨rfl, rfl⟩
+
+/-- when the exception flag is set, `finish` hands nothing out -/
+theorem finish_of_exc (r : State × Option CanMsg × Bool) (h : r.1.exc.isSome) :
+    finish r = (r.1, none, false) := by
+  unfold finish
+  simp [h]
+
+theorem finish_of_no_exc (r : State × Option CanMsg × Bool) (h : r.1.exc = none) :
+    (finish r).2.1 = r.2.1 := by
+  unfold finish
+  simp only [h, Option.isSome_none, Bool.false_eq_true, if_false]
+  split <;> simp_all
+
+theorem transmitCf_exc_sticky (s : State) (allowed : Nat) (h : s.exc.isSome) :
+    (s.transmitCf allowed).1.exc.isSome := by
+  unfold transmitCf
+  grind (splits := 30) [consumeActive_fst, stopSending, State.error, emit, State.raise, startRxFcTimer,
+    Timer.startAt, Timer.stop]
+
+theorem txPhases_lastFc (s : State) (a : Nat) : (txPhases s a).1.lastFc = none := by
+  have hm := (afterFc_misc s).1
+  unfold txPhases
+  split
+  · exact hm
+  · simp only []
+    have h2 : (afterTimeout (afterFc s).1).lastFc = none := by rw [(afterTimeout_misc _).1]; exact hm
+    split
+    · exact h2
+    · rw [(finish_lastFc_exc _).1, fsm_lastFc, afterDepleted_lastFc]; exact h2
+
+theorem fcSendPhase_exc (s : State) (h : (fcSendPhase s).2 = none) : (fcSendPhase s).1.exc = s.exc := by
+  unfold fcSendPhase at *
+  grind [State.raise, startRxCfTimer]
+
+theorem fcSendPhase_exc' (s : State) :
+    (fcSendPhase s).1.exc = s.exc ∨ (fcSendPhase s).1.exc.isSome := by
+  unfold fcSendPhase
+  grind [State.raise, startRxCfTimer]
+
+theorem processRx_exc (s : State) (m : CanMsg) : (s.processRx m).1.exc = s.exc := by
+  unfold processRx startReception
+  grind [deliver, stopReceiving, State.error, emit, requestFc, startRxCfTimer]
+
+
+/-! ### The strict block-size monitor (count / granted / recent) -/
+
+/-- ghost state of the strict monitor -/
+structure Strict where
+  /-- Consecutive Frames handed out since the sender last waited -/
+  count : Nat := 0
+  /-- largest block size granted since the sender last waited (`none` = ∞, i.e. BS = 0) -/
+  granted : Budget := some 0
+  /-- largest block size granted since the last data frame (SF/FF/CF) was handed out -/
+  recent : Budget := some 0
+  deriving DecidableEq, Repr
+
+/-- events of the strict monitor -/
+inductive SEv where
+  /-- a First Frame was handed out -/
+  | ffSent
+  /-- a Single Frame was handed out -/
+  | sfSent
+  /-- a ContinueToSend with block size `bs` reached the mailbox (`_process_rx`) -/
+  | ctsRead (bs : Nat)
+  /-- a transmit pass begins in state WAIT_FC -/
+  | waitPass
+  /-- a Consecutive Frame was handed out -/
+  | cfSent
+  deriving DecidableEq, Repr
+
+/-- one step of the strict monitor; `none` = violation.  `sfResets` chooses whether a Single
+    Frame resets `recent` (it is a data frame) — the model is sound for both readings. -/
+def strictStep (sfResets : Bool) (g : Strict) : SEv → Option Strict
+  | .ffSent => some { count := 0, granted := some 0, recent := some 0 }
+  | .sfSent => some (if sfResets then { g with recent := some 0 } else g)
+  | .ctsRead bs => some { g with granted := g.granted.sup (grant bs), recent := g.recent.sup (grant bs) }
+  | .waitPass => some { g with count := 0, granted := g.recent }
+  | .cfSent =>
+    match g.granted with
+    | none => some { g with count := g.count + 1, recent := some 0 }
+    | some m => if g.count + 1 ≤ m then some { g with count := g.count + 1, recent := some 0 } else none
+
+def strictRun (sfResets : Bool) : Strict → List SEv → Option Strict
+  | g, [] => some g
+  | g, e :: es =>
+    match strictStep sfResets g e with
+    | none => none
+    | some g' => strictRun sfResets g' es
+
+theorem strictRun_append (f : Bool) (g : Strict) (l1 l2 : List SEv) :
+    strictRun f g (l1 ++ l2) = (strictRun f g l1).bind (fun g1 => strictRun f g1 l2) := by
+  induction l1 generalizing g with
+  | nil => rfl
+  | cons e es ih =>
+    simp only [List.cons_append, strictRun]
+    cases strictStep f g e with
+    | none => rfl
+    | some g' => exact ih g'
+
+/-- `b` covers a grant of block size `bs` (BS = 0 needs ∞) -/
+def covers (b : Budget) (bs : Nat) : Prop := (bs = 0 → b = none) ∧ b.ge bs
+
+theorem covers_sup_left {a : Budget} {bs : Nat} (c : Budget) (h : covers a bs) : covers (a.sup c) bs :=
+  ⟨fun h0 => by rw [h.1 h0, Budget.sup_none_left], Budget.sup_ge_left h.2⟩
+
+theorem covers_sup_grant (a : Budget) (bs : Nat) : covers (a.sup (grant bs)) bs :=
+  ⟨fun h0 => by simp [grant, h0, Budget.sup_none_right], Budget.sup_grant_ge a⟩
+
+theorem covers_ge_one {b : Budget} {bs : Nat} (h : covers b bs) : b.ge 1 := by
+  by_cases h0 : bs = 0
+  · rw [h.1 h0]; trivial
+  · exact Budget.ge_mono h.2 (by omega)
+
+/-- coupling, transmit side: in TRANSMIT_CF (no exception raised) the block counter is the
+    monitor's count, one more frame is within the grant, and the grant covers the block size in
+    force -/
+def SA (s : State) (g : Strict) : Prop :=
+  s.exc = none → s.txState = .transmitCf →
+    ∃ bs, s.remoteBs = some bs ∧ s.txBlockCnt = g.count ∧ g.granted.ge (s.txBlockCnt + 1) ∧
+      covers g.granted bs
+
+/-- coupling, mailbox: a ContinueToSend waiting in the mailbox is covered by `recent` and
+    `granted` -/
+def SB (s : State) (g : Strict) : Prop :=
+  ∀ fc, s.lastFc = some fc → fc.status = 0 → covers g.recent fc.bs ∧ covers g.granted fc.bs
+
+def SInv (s : State) (g : Strict) : Prop := SA s g ∧ SB s g
+
+theorem SB_of_none {s : State} (g : Strict) (h : s.lastFc = none) : SB s g := by
+  intro fc hfc; rw [h] at hfc; cases hfc
+
+theorem SA_of_not_cf {s : State} (g : Strict) (h : s.txState ≠ .transmitCf) : SA s g :=
+  fun _ hs => absurd hs h
+
+theorem SA_of_exc {s : State} (g : Strict) (h : s.exc.isSome) : SA s g := by
+  intro h0; rw [h0] at h; cases h
+
+theorem SA_congr {s s' : State} {g : Strict} (h0 : s'.exc = s.exc) (h1 : s'.txState = s.txState)
+    (h2 : s'.remoteBs = s.remoteBs) (h3 : s'.txBlockCnt = s.txBlockCnt) (h : SA s g) : SA s' g := by
+  unfold SA at *
+  rw [h0, h1, h2, h3]; exact h
+
+theorem SA_stopSending (s : State) (ok : Bool) (g : Strict) : SA (s.stopSending ok) g :=
+  SA_of_not_cf g (by rw [(stopSending_idle s ok).1]; simp)
+
+/-- phase 1 keeps the transmit-side coupling; a ContinueToSend honoured from WAIT_FC starts a new
+    stretch (`count = 0`, which the `waitPass` event has just established) -/
+theorem SA_afterFc (s : State) (g : Strict) (hA : SA s g) (hB : SB s g)
+    (hW : s.txState = .waitFc → g.count = 0) : SA (afterFc s).1 g := by
+  unfold afterFc
+  cases hfc : s.lastFc with
+  | none => exact SA_congr rfl rfl rfl rfl hA
+  | some fc =>
+    simp only []
+    have h0 : SA ({ s with lastFc := none } : State) g := SA_congr rfl rfl rfl rfl hA
+    have hW0 : ({ s with lastFc := none } : State).txState = .waitFc → g.count = 0 := hW
+    generalize ({ s with lastFc := none } : State) = s0 at h0 hW0 ⊢
+    by_cases h2 : fc.status = 2
+    · simp only [h2, if_true]
+      exact SA_congr (s := s0.stopSending false) rfl rfl rfl rfl (SA_stopSending _ _ _)
+    · simp only [h2, if_false]
+      by_cases hst : fc.status = 0
+      · obtain ⟨cr, cg⟩ := hB fc hfc hst
+        by_cases hh : ctsHonoured s0 fc = true
+        · rw [handleFc_cts s0 fc hh]
+          intro _ _
+          refine ⟨fc.bs, rfl, ?_, ?_, cg⟩
+          · simp only
+            split
+            · rename_i hw; exact (hW0 hw).symm
+            · rename_i hw
+              have hcf : s0.txState = .transmitCf := by
+                simp only [ctsHonoured, Bool.and_eq_true, Bool.or_eq_true, decide_eq_true_eq] at hh
+                rcases hh.2 with h | h
+                · exact absurd h hw
+                · exact h
+              obtain ⟨_, _, k, _⟩ := h0 ‹_› hcf
+              exact k
+          · simp only
+            split
+            · exact covers_ge_one cg
+            · rename_i hw
+              have hcf : s0.txState = .transmitCf := by
+                simp only [ctsHonoured, Bool.and_eq_true, Bool.or_eq_true, decide_eq_true_eq] at hh
+                rcases hh.2 with h | h
+                · exact absurd h hw
+                · exact h
+              obtain ⟨_, _, _, k, _⟩ := h0 ‹_› hcf
+              exact k
+        · by_cases hi : s0.txState = .idle
+          · rw [handleFc_idle s0 fc hi]
+            exact SA_of_not_cf _ (by simp [State.error, emit, hi])
+          · rw [handleFc_cts_ignored s0 fc hst hi (by simpa using hh)]
+            exact h0
+      · intro he hs'
+        rw [handleFc_exc] at he
+        obtain ⟨k1, k2, k3⟩ := handleFc_not_cts s0 fc hst hs'
+        rw [k2, k3]
+        exact h0 he k1
+
+theorem SA_afterTimeout (s : State) (g : Strict) (h : SA s g) : SA (afterTimeout s) g := by
+  unfold afterTimeout
+  split
+  · exact SA_stopSending _ _ _
+  · exact h
+
+theorem SA_afterDepleted (s : State) (g : Strict) (h : SA s g) : SA (afterDepleted s) g :=
+  ite_pred (P := fun x => SA x g) (SA_stopSending _ _ _) h
+
+
+/-- the TRANSMIT_CF branch against the strict monitor -/
+theorem SA_transmitCf (s : State) (a : Nat) (g : Strict) (h : SA s g) (hs : s.txState = .transmitCf)
+    (he : s.exc = none) :
+    let r := finish (s.transmitCf a)
+    (r.2.1 = none → SA r.1 g) ∧
+    (r.2.1.isSome → g.granted.ge (g.count + 1) ∧ SA r.1 { g with count := g.count + 1, recent := some 0 }) := by
+  intro r
+  obtain ⟨bs, hb, hc, hg, hcov⟩ := h he hs
+  have k := (transmitCf_block s a bs hb).2
+  obtain ⟨f1, f2, f3, _⟩ := finish_fields (s.transmitCf a)
+  have fe := (finish_lastFc_exc (s.transmitCf a)).2
+  by_cases hx : (s.transmitCf a).1.exc.isSome
+  · have : r = ((s.transmitCf a).1, none, false) := finish_of_exc _ hx
+    rw [this]
+    exact ⟨fun _ => SA_of_exc _ hx, by simp⟩
+  · have hx' : (s.transmitCf a).1.exc = none := by simpa using hx
+    have ho : r.2.1 = (s.transmitCf a).2.1 := finish_of_no_exc _ hx'
+    constructor
+    · intro hn _ hs'
+      rw [ho] at hn
+      rw [f1] at hs'
+      obtain ⟨k1, k2, _⟩ := k hs'
+      refine ⟨bs, by rw [f2]; exact k1, by rw [f3, k2 hn]; exact hc, by rw [f3, k2 hn]; exact hg, hcov⟩
+    · intro hsome
+      rw [ho] at hsome
+      refine ⟨by rw [← hc]; exact hg, ?_⟩
+      intro _ hs'
+      rw [f1] at hs'
+      obtain ⟨k1, _, k3⟩ := k hs'
+      obtain ⟨k4, k5⟩ := k3 hsome
+      refine ⟨bs, by rw [f2]; exact k1, by rw [f3, k4, hc], ?_, hcov⟩
+      rw [f3, k4]
+      simp only
+      rcases k5 with k5 | k5
+      · rw [hcov.1 k5]; trivial
+      · exact Budget.ge_mono hcov.2 (by omega)
+
+/-- phases 1–5 against the strict monitor -/
+theorem strict_txPhases (s1 : State) (a : Nat) (g : Strict) (hA : SA s1 g) (hB : SB s1 g)
+    (hW : s1.txState = .waitFc → g.count = 0) :
+    ((txPhases s1 a).2.1 = none → SA (txPhases s1 a).1 g) ∧
+    ((txPhases s1 a).2.1.isSome → cfBranchAt s1 = true →
+      g.granted.ge (g.count + 1) ∧ SA (txPhases s1 a).1 { g with count := g.count + 1, recent := some 0 }) ∧
+    ((txPhases s1 a).2.1.isSome → cfBranchAt s1 = false → (txPhases s1 a).1.txState ≠ .transmitCf) := by
+  have h1 := SA_afterFc s1 g hA hB hW
+  unfold txPhases cfBranchAt
+  by_cases hAo : (afterFc s1).2 = true
+  · simp only [hAo, if_true]
+    exact ⟨fun _ => h1, by simp, by simp⟩
+  · simp only [hAo]
+    have h2 := SA_afterTimeout _ _ h1
+    generalize afterTimeout (afterFc s1).1 = s2 at h2 ⊢
+    by_cases hBo : (s2.txState ≠ .idle && s2.active.isNone) = true
+    · simp only [hBo, if_true, Bool.false_eq_true, if_false]
+      exact ⟨fun _ => SA_of_exc _ (by simp [State.raise]), by simp, by simp⟩
+    · simp only [hBo, Bool.false_eq_true, if_false]
+      have h3 := SA_afterDepleted _ _ h2
+      generalize afterDepleted s2 = s3 at h3 ⊢
+      obtain ⟨f1, f2, f3, f4⟩ := finish_fields (fsm s3 a)
+      by_cases hC : s3.txState = .transmitCf
+      · rw [fsm_cf s3 a hC]
+        by_cases he : s3.exc = none
+        · obtain ⟨c1, c2⟩ := SA_transmitCf s3 a g h3 hC he
+          exact ⟨c1, fun ho _ => c2 ho, by simp [hC]⟩
+        · have hx : (s3.transmitCf a).1.exc.isSome :=
+            transmitCf_exc_sticky s3 a (by cases h : s3.exc <;> simp_all)
+          rw [finish_of_exc _ hx]
+          exact ⟨fun _ => SA_of_exc _ hx, by simp, by simp⟩
+      · have hn := fsm_not_cf s3 a hC
+        have hn' : (finish (fsm s3 a)).1.txState ≠ .transmitCf := by rw [f1]; exact hn
+        exact ⟨fun _ => SA_of_not_cf _ hn', by simp [hC], fun _ _ => hn'⟩
+
+/-- strict-monitor events of one `processTx` call -/
+def txEventsS (s : State) : List SEv :=
+  (if s.txState = .waitFc then [.waitPass] else []) ++
+  (match (fcSendPhase s).2 with
+    | some _ => []
+    | none =>
+      match s.processTx.2.1 with
+      | none => []
+      | some _ =>
+        if cfBranch s then [.cfSent]
+        else if s.processTx.1.txState = .waitFc then [.ffSent] else [.sfSent])
+
+/-- strict-monitor events of one `processRx` call: a ContinueToSend reaches the mailbox -/
+def rxEventsS (s : State) (m : CanMsg) : List SEv :=
+  match decode m.data s.addr.rx.rxPrefixSize with
+  | some d =>
+    (match d.pdu with
+      | .fc st bs _ => if st = 0 then [.ctsRead bs] else []
+      | _ => [])
+  | none => []
+
+theorem processRx_mail (s : State) (m : CanMsg) :
+    (∃ st bs stm, (s.processRx m).1.lastFc = some ⟨st, bs, stm⟩ ∧
+      rxEventsS s m = if st = 0 then [.ctsRead bs] else []) ∨
+    (rxEventsS s m = [] ∧ ((s.processRx m).1.lastFc = s.lastFc ∨ (s.processRx m).1.lastFc = none)) := by
+  cases hd : decode m.data s.addr.rx.rxPrefixSize with
+  | none => right; simp [rxEventsS, processRx, hd, stopReceiving]
+  | some d =>
+    cases hp : d.pdu with
+    | fc st bs stm =>
+      left
+      exact ⟨st, bs, stm, by simp [processRx, hd, hp], by simp [rxEventsS, hd, hp]⟩
+    | sf l data esc =>
+      right
+      refine ⟨by simp [rxEventsS, hd, hp], ?_⟩
+      unfold processRx startReception
+      simp only [hd, hp]
+      grind [deliver, stopReceiving, State.error, emit, requestFc, startRxCfTimer]
+    | ff l data esc =>
+      right
+      refine ⟨by simp [rxEventsS, hd, hp], ?_⟩
+      unfold processRx startReception
+      simp only [hd, hp]
+      grind [deliver, stopReceiving, State.error, emit, requestFc, startRxCfTimer]
+    | cf sn data =>
+      right
+      refine ⟨by simp [rxEventsS, hd, hp], ?_⟩
+      unfold processRx startReception
+      simp only [hd, hp]
+      grind [deliver, stopReceiving, State.error, emit, requestFc, startRxCfTimer]
+
+
+/-- monitor state after the "pass begins in WAIT_FC" event, if it applies -/
+def afterWaitPass (s : State) (g : Strict) : Strict :=
+  if s.txState = .waitFc then { g with count := 0, granted := g.recent } else g
+
+theorem strictRun_waitPass (f : Bool) (s : State) (g : Strict) (es : List SEv) :
+    strictRun f g ((if s.txState = .waitFc then [SEv.waitPass] else []) ++ es) =
+      strictRun f (afterWaitPass s g) es := by
+  unfold afterWaitPass
+  split <;> simp [strictRun, strictStep]
+
+theorem SInv_afterWaitPass (s : State) (g : Strict) (h : SInv s g) :
+    SInv s (afterWaitPass s g) ∧ (s.txState = .waitFc → (afterWaitPass s g).count = 0) := by
+  unfold afterWaitPass
+  by_cases hw : s.txState = .waitFc
+  · rw [if_pos hw]
+    refine ⟨⟨SA_of_not_cf _ (by rw [hw]; simp), ?_⟩, fun _ => rfl⟩
+    intro fc hfc hst
+    exact ⟨(h.2 fc hfc hst).1, (h.2 fc hfc hst).1⟩
+  · rw [if_neg hw]
+    exact ⟨h, fun h' => absurd h' hw⟩
+
+/-- **Strict monitor, transmit step.** One `processTx` call never violates the strict monitor
+    and re-establishes the coupling. -/
+theorem strict_step_tx (f : Bool) (s : State) (g : Strict) (h : SInv s g) :
+    ∃ g', strictRun f g (txEventsS s) = some g' ∧ SInv s.processTx.1 g' := by
+  obtain ⟨⟨hA0, hB0⟩, hW0⟩ := SInv_afterWaitPass s g h
+  have hv := fcSendPhase_txView s
+  have hcb := cfBranch_eq s
+  unfold txEventsS
+  rw [strictRun_waitPass, hcb, processTx_eq]
+  generalize afterWaitPass s g = g0 at hA0 hB0 hW0 ⊢
+  have hexc := fcSendPhase_exc s
+  have hexc' := fcSendPhase_exc' s
+  generalize hx : fcSendPhase s = x at hv hcb hexc hexc' ⊢
+  obtain ⟨s1, o⟩ := x
+  have hv1 := hv.1
+  simp only [txView, Prod.mk.injEq] at hv1
+  have hB1 : SB s1 g0 := by
+    intro fc hfc; rw [hv.2.1] at hfc; exact hB0 fc hfc
+  rcases o with _ | _ | m
+  · simp only [] at ⊢
+    have hA1 : SA s1 g0 := SA_congr (hexc rfl) hv1.1 hv1.2.2.2.2.2.1 hv1.2.2.2.2.2.2.1 hA0
+    have hW1 : s1.txState = .waitFc → g0.count = 0 := by rw [hv1.1]; exact hW0
+    obtain ⟨m1, m2, m3⟩ := strict_txPhases s1 (allowedNow s) g0 hA1 hB1 hW1
+    have hl := txPhases_lastFc s1 (allowedNow s)
+    cases ho : (txPhases s1 (allowedNow s)).2.1 with
+    | none => exact ⟨g0, rfl, m1 ho, SB_of_none _ hl⟩
+    | some msg =>
+      rw [ho] at m2 m3
+      by_cases hcf : cfBranchAt s1 = true
+      · obtain ⟨k1, k2⟩ := m2 rfl hcf
+        refine ⟨{ g0 with count := g0.count + 1, recent := some 0 }, ?_, k2, SB_of_none _ hl⟩
+        simp only [hcf, if_true, strictRun, strictStep]
+        cases hg : g0.granted with
+        | none => rfl
+        | some mm =>
+          rw [hg] at k1
+          simp only [Budget.ge] at k1
+          simp [k1]
+      · have hcf' : cfBranchAt s1 = false := by simpa using hcf
+        have hn := m3 rfl hcf'
+        simp only [hcf', Bool.false_eq_true, if_false]
+        split <;> exact ⟨_, rfl, SA_of_not_cf _ hn, SB_of_none _ hl⟩
+  · refine ⟨g0, rfl, ?_, hB1⟩
+    rcases hexc' with he | he
+    · exact SA_congr he hv1.1 hv1.2.2.2.2.2.1 hv1.2.2.2.2.2.2.1 hA0
+    · exact SA_of_exc _ he
+  · refine ⟨g0, rfl, ?_, hB1⟩
+    rcases hexc' with he | he
+    · exact SA_congr he hv1.1 hv1.2.2.2.2.2.1 hv1.2.2.2.2.2.2.1 hA0
+    · exact SA_of_exc _ he
+
+
+theorem SA_granted_mono {s : State} {g g' : Strict} (hc : g'.count = g.count)
+    (hg : ∀ n, g.granted.ge n → g'.granted.ge n) (hn : g.granted = none → g'.granted = none)
+    (h : SA s g) : SA s g' := by
+  intro he hs
+  obtain ⟨bs, h1, h2, h3, h4⟩ := h he hs
+  exact ⟨bs, h1, by rw [hc]; exact h2, hg _ h3, fun h0 => hn (h4.1 h0), hg _ h4.2⟩
+
+/-- **Strict monitor, receive step.** `processRx` (a ContinueToSend reaching the mailbox is the
+    only event) never violates the monitor and keeps the coupling. -/
+theorem strict_step_rx (f : Bool) (s : State) (m : CanMsg) (g : Strict) (h : SInv s g) :
+    ∃ g', strictRun f g (rxEventsS s m) = some g' ∧ SInv (s.processRx m).1 g' := by
+  have hv := processRx_txView s m
+  simp only [txView, Prod.mk.injEq] at hv
+  have hA : ∀ g', SA s g' → SA (s.processRx m).1 g' := fun g' h' =>
+    SA_congr (processRx_exc s m) hv.1 hv.2.2.2.2.2.1 hv.2.2.2.2.2.2.1 h'
+  rcases processRx_mail s m with ⟨st, bs, stm, hl, hev⟩ | ⟨hev, hl⟩
+  · rw [hev]
+    by_cases h0 : st = 0
+    · simp only [h0, if_true, strictRun, strictStep]
+      refine ⟨_, rfl, hA _ ?_, ?_⟩
+      · exact SA_granted_mono (g := g) rfl (fun n hn => Budget.sup_ge_left hn)
+          (fun hn => by simp only; rw [hn, Budget.sup_none_left]) h.1
+      · intro fc hfc _
+        rw [hl] at hfc
+        injection hfc with hfc
+        subst hfc
+        exact ⟨covers_sup_grant _ _, covers_sup_grant _ _⟩
+    · simp only [h0, if_false, strictRun]
+      refine ⟨g, rfl, hA _ h.1, ?_⟩
+      intro fc hfc hst
+      rw [hl] at hfc
+      injection hfc with hfc
+      subst hfc
+      exact absurd hst h0
+  · rw [hev]
+    refine ⟨g, rfl, hA _ h.1, ?_⟩
+    rcases hl with hl | hl
+    · intro fc hfc; rw [hl] at hfc; exact h.2 fc hfc
+    · exact SB_of_none _ hl
+
+theorem SInv_advance (s : State) (dt : Nat) (g : Strict) (h : SInv s g) : SInv (s.advance dt) g := h
+
+theorem SInv_send (s : State) (a : SendArgs) (g : Strict) (h : SInv s g) : SInv (s.send a).1 g := by
+  unfold send
+  simp only []
+  repeat' split
+  all_goals exact h
+
+theorem SInv_checkTimeoutsRx (s : State) (g : Strict) (h : SInv s g) : SInv s.checkTimeoutsRx g := by
+  unfold checkTimeoutsRx
+  split
+  · exact ⟨SA_congr (s := s) rfl rfl rfl rfl h.1, SB_of_none _ rfl⟩
+  · exact h
+
+theorem SInv_reset (s : State) (g : Strict) : SInv s.reset g := by
+  unfold reset
+  refine ⟨SA_congr (s := (({ s with rxQueue := [] } : State).clearTxQueue s.txQueue).stopSending false)
+    rfl rfl rfl rfl (SA_stopSending _ _ _), SB_of_none _ rfl⟩
+
+theorem SInv_init (c : Cfg) (a : Addr) (g : Strict) : SInv (State.init c a) g :=
+  ⟨SA_of_not_cf _ (by simp [State.init]), SB_of_none _ rfl⟩
+
+/-- the monitor's own invariant: never more Consecutive Frames counted than granted -/
+def Strict.ok (g : Strict) : Prop := g.granted.ge g.count
+
+theorem strictStep_ok (f : Bool) (g g' : Strict) (e : SEv) (h : g.ok) (hs : strictStep f g e = some g') :
+    g'.ok := by
+  unfold Strict.ok at *
+  cases e with
+  | ffSent => simp only [strictStep, Option.some.injEq] at hs; subst hs; simp [Budget.ge]
+  | sfSent =>
+    simp only [strictStep, Option.some.injEq] at hs; subst hs
+    split <;> exact h
+  | ctsRead bs =>
+    simp only [strictStep, Option.some.injEq] at hs; subst hs
+    exact Budget.sup_ge_left h
+  | waitPass =>
+    simp only [strictStep, Option.some.injEq] at hs; subst hs
+    cases g.recent <;> simp [Budget.ge]
+  | cfSent =>
+    simp only [strictStep] at hs
+    cases hg : g.granted with
+    | none => simp only [hg, Option.some.injEq] at hs; subst hs; simp [Budget.ge]
+    | some m =>
+      simp only [hg] at hs
+      split at hs
+      · injection hs with hs; subst hs; simp only [Budget.ge]; assumption
+      · cases hs
+
+theorem strictRun_ok (f : Bool) (g g' : Strict) (es : List SEv) (h : g.ok) (hs : strictRun f g es = some g') :
+    g'.ok := by
+  induction es generalizing g with
+  | nil => simp only [strictRun, Option.some.injEq] at hs; subst hs; exact h
+  | cons e es ih =>
+    simp only [strictRun] at hs
+    cases he : strictStep f g e with
+    | none => simp [he] at hs
+    | some g1 =>
+      simp only [he] at hs
+      exact ih g1 (strictStep_ok f g g1 e h he) hs
+
+
+/-! ### Progress without the "raises" disjunct, under a valid configuration -/
+
+theorem Req.consume_isSome (r : Req) (n : Nat) (h1 : n ≤ r.remaining) (h2 : r.consumed ≤ r.size) :
+    (r.consume n false).2.isSome = true := by
+  have hl : (r.src.take n).length ≤ n := List.length_take_le n r.src
+  generalize hd : r.src.take n = data at hl
+  unfold Req.remaining at h1
+  unfold Req.consume
+  simp only [hd]
+  split
+  · rename_i h; omega
+  · split <;> rfl
+
+theorem prefix_fits_valid (s : State) (hv : s.cfg.valid = true) : s.txPrefixLen + 2 ≤ s.cfg.txDl := by
+  have h1 : s.txPrefixLen ≤ 1 := C12.txPrefix_le s.addr
+  have h2 : 8 ≤ s.cfg.txDl := by
+    simp only [Cfg.valid, validTxDl, Bool.and_eq_true, Bool.or_eq_true, decide_eq_true_eq] at hv
+    omega
+  omega
+
+/-- Progress in TRANSMIT_CF under a valid configuration: once STmin has elapsed and the limiter
+    lets the frame through, the pass never raises; it ends the message or hands out a Consecutive
+    Frame and strictly decreases what remains to be sent. -/
+theorem transmitCf_progress_valid (s : State) (a bs : Nat) (r : Req) (hb : s.remoteBs = some bs)
+    (ha : s.active = some r) (hd : r.depleted = false) (ht : s.timerStmin.timedOut s.now = true)
+    (hl : cfPayloadLen s r ≤ a) (hv : s.cfg.valid = true) :
+    (s.transmitCf a).1.exc = s.exc ∧
+    ((s.transmitCf a).1.txState = .idle ∨
+     (∃ msg r', (s.transmitCf a).2.1 = some msg ∧ (s.transmitCf a).1.active = some r' ∧
+       r'.remaining < r.remaining ∧ r'.id = r.id ∧ r'.size = r.size)) := by
+  have hdl := prefix_fits_valid s hv
+  rw [transmitCf_eq s a bs r hb ha]
+  simp only [ht, hl, and_self, if_true]
+  have hcs : r.consumed < r.size := by
+    simp only [Req.depleted, Bool.or_eq_false_iff, decide_eq_false_iff_not] at hd
+    omega
+  have hrem : 1 ≤ r.remaining := by unfold Req.remaining; omega
+  have hn : 1 ≤ cfPayloadLen s r := by unfold cfPayloadLen; omega
+  have hnr : cfPayloadLen s r ≤ r.remaining := by unfold cfPayloadLen; omega
+  have hnd : s.txPrefixLen + 1 + cfPayloadLen s r ≤ s.cfg.txDl := by unfold cfPayloadLen; omega
+  have hsome := Req.consume_isSome r (cfPayloadLen s r) hnr (by omega)
+  obtain ⟨c1, c2, c3⟩ := Req.consume_spec r (cfPayloadLen s r)
+  have hs1 := consumeActive_fst s r (cfPayloadLen s r) false
+  generalize (s.consumeActive r (cfPayloadLen s r) false).1 = s1 at hs1 ⊢
+  generalize hlog : (s.consumeActive r (cfPayloadLen s r) false).1.log = l1 at hs1
+  generalize hcons : r.consume (cfPayloadLen s r) false = c at c1 c2 c3 hs1 hsome ⊢
+  obtain ⟨r', res⟩ := c
+  cases res with
+  | none => simp at hsome
+  | some payload =>
+    obtain ⟨d1, d2, d3, d4⟩ := c3 payload rfl
+    simp only at c1 c2 d1 d2 d3 d4 hs1 ⊢
+    have hact : s1.active = some r' := by rw [hs1]
+    have hexc : s1.exc = s.exc := by rw [hs1]
+    have hcfg : s1.cfg = s.cfg := by rw [hs1]
+    have haddr : s1.addr = s.addr := by rw [hs1]
+    unfold cfTail cfSend
+    by_cases hpl : payload.length > 0
+    · simp only [hpl, if_true]
+      have hmk : (makeTxMsg s1.cfg s1.addr (s1.addr.tx.txId .physical)
+          (s1.addr.tx.txPrefix ++ [u8 (0x20 + s1.txSeq)] ++ payload)).isSome = true := by
+        apply C12.makeTxMsg_isSome _ _ _ _ (by rw [hcfg]; exact hv)
+        · simp only [List.length_append, List.length_cons, List.length_nil]; omega
+        · simp only [List.length_append, List.length_cons, List.length_nil, hcfg, haddr]
+          unfold txPrefixLen at hnd
+          omega
+      cases hm : makeTxMsg s1.cfg s1.addr (s1.addr.tx.txId .physical)
+          (s1.addr.tx.txPrefix ++ [u8 (0x20 + s1.txSeq)] ++ payload) with
+      | none => rw [hm] at hmk; cases hmk
+      | some msg =>
+        simp only [Bool.false_eq_true, if_false]
+        by_cases hdep : r'.depleted = true
+        · simp only [hdep, if_true]
+          split
+          · exact ⟨by rw [stopSending_exc]; exact hexc, Or.inl (stopSending_idle _ _).1⟩
+          · exact ⟨by rw [stopSending_exc]; exact hexc, Or.inl (stopSending_idle _ _).1⟩
+        · simp only [hdep, Bool.false_eq_true, if_false]
+          refine ⟨?_, Or.inr ⟨msg, r', ?_, ?_, ?_, c2, c1⟩⟩
+          · split <;> simp [startRxFcTimer, hexc]
+          · split <;> rfl
+          · split <;> simp [startRxFcTimer, hact]
+          · unfold Req.remaining; rw [c1, d1]; unfold Req.remaining at hrem; omega
+    · have h0 : payload.length = 0 := by omega
+      have hdep := d4 (by omega)
+      simp only [hpl, if_false, Bool.false_eq_true, hdep, if_true]
+      split
+      · exact ⟨by rw [stopSending_exc]; exact hexc, Or.inl (stopSending_idle _ _).1⟩
+      · exact ⟨by rw [stopSending_exc]; exact hexc, Or.inl (stopSending_idle _ _).1⟩
+
+/-- progress of a whole `processTx` pass in TRANSMIT_CF (empty mailbox, valid configuration, no
+    exception raised earlier): it ends the message or hands out a Consecutive Frame -/
+theorem processTx_cf_progress_valid (s : State) (r : Req) (hw : TxWf s) (hs : s.txState = .transmitCf)
+    (hp : s.pendingFc = false) (hfc : s.lastFc = none) (ha : s.active = some r) (hd : r.depleted = false)
+    (ht : s.timerStmin.timedOut s.now = true) (hl : cfPayloadLen s r ≤ allowedNow s)
+    (hv : s.cfg.valid = true) (he : s.exc = none) :
+    s.processTx.1.exc = none ∧
+    (s.processTx.1.txState = .idle ∨
+     (∃ msg r', s.processTx.2.1 = some msg ∧ s.processTx.1.active = some r' ∧
+       r'.remaining < r.remaining ∧ r'.id = r.id ∧ r'.size = r.size)) := by
+  obtain ⟨_, w2, w3, _, _, _⟩ := hw
+  have hfcs : s.timerFc.start = none := w2 (by simp [hs])
+  obtain ⟨bs, hb⟩ : ∃ bs, s.remoteBs = some bs := by
+    have := (w3 hs).2
+    cases h : s.remoteBs with
+    | none => simp [h] at this
+    | some bs => exact ⟨bs, rfl⟩
+  rw [processTx_cf_pass s r hs hp hfc hfcs ha hd]
+  obtain ⟨⟨f1, f2, f3⟩, _⟩ := finish_progress (s.transmitCf (allowedNow s))
+  obtain ⟨p0, p⟩ := transmitCf_progress_valid s (allowedNow s) bs r hb ha hd ht hl hv
+  have hx : (s.transmitCf (allowedNow s)).1.exc = none := by rw [p0]; exact he
+  have f4 := finish_of_no_exc _ hx
+  refine ⟨by rw [f1]; exact hx, ?_⟩
+  rcases p with p | ⟨msg, r', p1, p2, p3⟩
+  · left; rw [f2]; exact p
+  · right
+    exact ⟨msg, r', by rw [f4]; exact p1, by rw [f3]; exact p2, p3⟩
 
 end Isotp.Fc
 
